@@ -303,6 +303,94 @@ func (c *codegen) emitUpdateIndexExpr(n *ast.IndexExpr, update func()) {
 	emit.Opcodes(c.prog.BinWriter, opcode.SETITEM)
 }
 
+// isDistinctIdents checks whether all the expressions are plain identifiers
+// and no identifier except the blank one is there twice.
+func isDistinctIdents(exprs []ast.Expr) bool {
+	seen := make(map[string]bool, len(exprs))
+	for _, e := range exprs {
+		id, ok := e.(*ast.Ident)
+		if !ok || seen[id.Name] {
+			return false
+		}
+		seen[id.Name] = id.Name != "_"
+	}
+	return true
+}
+
+// emitTupleAssign emits code for a tuple assignment with targets other than
+// distinct variables, like `s[i], i = x, y` or `a.f, s[0], s[0] = x, y, z`.
+// The operands of index expressions and the structures of field selectors on
+// the left are evaluated first, then the values on the right, after that the
+// values are stored from left to right.
+func (c *codegen) emitTupleAssign(n *ast.AssignStmt) {
+	var (
+		kept  = make([]int, len(n.Lhs)) // number of stack items kept for the target
+		field = make([]int, len(n.Lhs)) // index of the field for struct field targets
+		below int                       // number of kept items of the targets not stored yet
+	)
+	for i, lhs := range n.Lhs {
+		switch t := lhs.(type) {
+		case *ast.IndexExpr:
+			ast.Walk(c, t.X)
+			ast.Walk(c, t.Index)
+			kept[i] = 2
+		case *ast.SelectorExpr:
+			typ := c.typeOf(t.X)
+			if c.isInvalidType(typ) {
+				// Other package global variable.
+				break
+			}
+			strct, ok := getStruct(typ)
+			if !ok {
+				c.prog.Err = fmt.Errorf("nested selector assigns not supported yet")
+				return
+			}
+			path := pathToField(strct, t.Sel.Name)
+			if path == nil {
+				c.prog.Err = fmt.Errorf("field %q not found in type %s", t.Sel.Name, typ)
+				return
+			}
+			ast.Walk(c, t.X)
+			c.emitLoadField(path[1:])
+			field[i] = path[0]
+			kept[i] = 1
+		}
+		below += kept[i]
+	}
+	for i := range n.Rhs {
+		c.saveExprSequencePoint(n.Rhs[i])
+		c.walkValue(n.Rhs[i])
+	}
+	c.emitReverse(len(n.Rhs)) // the first value is on top
+	for i, lhs := range n.Lhs {
+		if i == len(n.Lhs)-1 {
+			// The sequence point includes a sign ":=" or "=".
+			c.saveSequencePoint(lhs.Pos(), n.Rhs[0].Pos())
+		} else {
+			c.saveSequencePoint(lhs.Pos(), lhs.End())
+		}
+		// The items kept for this target are the deepest ones, they are
+		// below the items of the next targets and the values not stored yet.
+		depth := below + len(n.Lhs) - i - 1
+		for range kept[i] {
+			emit.Int(c.prog.BinWriter, int64(depth))
+			emit.Opcodes(c.prog.BinWriter, opcode.ROLL)
+		}
+		below -= kept[i]
+		switch kept[i] {
+		case 2: // value container index
+			emit.Opcodes(c.prog.BinWriter, opcode.ROT, opcode.SETITEM)
+		case 1: // value structure
+			c.emitStoreStructField(field[i])
+		default:
+			if t, ok := lhs.(*ast.Ident); ok && n.Tok == token.DEFINE {
+				c.registerDebugVariable(t.Name, n.Rhs[i])
+			}
+			c.emitStoreExpr(lhs, n.Tok)
+		}
+	}
+}
+
 // emitStoreIndexExpr emits code to store into an index expression (container[index]).
 // Assumes the RHS is already on the stack before calling.
 func (c *codegen) emitStoreIndexExpr(n *ast.IndexExpr) {
@@ -908,6 +996,10 @@ func (c *codegen) Visit(node ast.Node) ast.Visitor {
 			c.saveExprSequencePoint(n.Rhs[0])
 			c.emitGetMapValueWithOKFlag(n.Rhs[0])
 			c.emitCloneIfArray(mapType.Elem())
+		}
+		if len(n.Lhs) > 1 && !multiRet && !isDistinctIdents(n.Lhs) {
+			c.emitTupleAssign(n)
+			return nil
 		}
 		if !isAssignOp && !isMapKeyCheck {
 			for i := range n.Rhs {
